@@ -77,8 +77,14 @@ func checkParser(c *checkCtx, prop string) {
 			continue
 		}
 		accepted++
+		if bounds && accepted%3 == 0 && !hasDiscardKinds(d) {
+			// C16: actions declared `any`, every second one returning an untyped nil — _onBounds must still be
+			// called for the reduction; values are compared in projection (production numbers and bound tokens)
+			s.goText = genUserGo(d, userOpts{bounds: true, nilres: true})
+			continue
+		}
 		// per-rule result types in C03 always, elsewhere for every second grammar
-		s.goText = genUserGo(d, userOpts{bounds: bounds, typed: prop == "C03" || accepted%2 == 0})
+		s.goText = genUserGo(d, userOpts{bounds: bounds, typed: prop == "C03" || accepted%2 == 0, shared: prop == "C03" && accepted%2 == 1})
 	}
 	ws.genAll()
 	ws.buildAll()
@@ -267,6 +273,9 @@ func checkParser(c *checkCtx, prop string) {
 			}
 			iv := canonImpl(impl)
 			mv := canonModel(model)
+			if j.s.dump.anyres {
+				iv, mv = projectValues(iv), projectValues(mv)
+			}
 			if strings.HasPrefix(impl, "HANG") && strings.HasPrefix(model, "FUEL") && !recovery {
 				continue // non-termination of error recovery is C09's subject
 			}
@@ -345,6 +354,52 @@ func checkParser(c *checkCtx, prop string) {
 	}
 	c.cov.Extra = mergeExtra(c.cov.Extra, map[string]any{"grammars_generated": nGram, "conflict_free_productive": accepted,
 		"compiled": len(jobs)})
+}
+
+// projectValues keeps, of every event, the production number (reductions) and the two bound tokens (_onBounds)
+func projectValues(s string) string {
+	lo, hi := strings.Index(s, "["), strings.LastIndex(s, "]")
+	if lo < 0 || hi < lo {
+		return s
+	}
+	// blanks inside a value (the Expected list of an Error) must not split the event
+	b := []byte(s[lo+1 : hi])
+	depth := 0
+	for i, ch := range b {
+		switch ch {
+		case '[':
+			depth++
+		case ']':
+			depth--
+		case ' ':
+			if depth >= 1 {
+				b[i] = ','
+			}
+		}
+	}
+	evs := strings.Fields(string(b))
+	for k, e := range evs {
+		switch {
+		case strings.HasPrefix(e, "B="):
+			if i := strings.Index(e, ";"); i >= 0 {
+				evs[k] = "B=" + e[i:]
+			}
+		case strings.HasPrefix(e, "R"):
+			if i := strings.Index(e, "="); i >= 0 {
+				evs[k] = e[:i]
+			}
+		}
+	}
+	return s[:lo+1] + strings.Join(evs, " ") + s[hi:]
+}
+
+func hasDiscardKinds(d *jDump) bool {
+	for _, r := range d.Rules {
+		if strings.HasSuffix(r.Kind, "_f") {
+			return true
+		}
+	}
+	return false
 }
 
 // canonical form "RESULT reads [events] top" of both sides
